@@ -283,3 +283,275 @@ def provenance(func: ast.AST, expr: ast.AST, depth: int = 0) -> Set[str]:
             if name:
                 result.add(name + "()")
     return result
+
+
+# ------------------------------------------------------------------ path facts
+def literals(test: ast.AST, polarity: bool) -> List[Tuple[ast.AST, bool]]:
+    """ atomic facts implied by `test == polarity`: conjuncts of a true `and`, disjuncts of a false `or`,
+        with `not` pushed inwards.  A true `or` / false `and` yields the compound itself as one literal. """
+    if isinstance(test, ast.UnaryOp) and isinstance(test.op, ast.Not):
+        return literals(test.operand, not polarity)
+    if isinstance(test, ast.BoolOp):
+        if isinstance(test.op, ast.And) and polarity:
+            out: List[Tuple[ast.AST, bool]] = []
+            for value in test.values:
+                out += literals(value, True)
+            return out
+        if isinstance(test.op, ast.Or) and not polarity:
+            out = []
+            for value in test.values:
+                out += literals(value, False)
+            return out
+    return [(test, polarity)]
+
+
+def path_facts(cfg: CFG, node: ast.AST, fresh_only: bool = False) -> List[Tuple[ast.AST, bool]]:
+    """ literals (expr, truth) that hold on *every* path from the function entry to `node`:
+        a test contributes when cutting one of its outgoing edges makes the node unreachable.
+        Handles early continue/return, inverted conditions and merged guards uniformly.
+        With fresh_only, a test is dropped when one of the names it reads can be re-bound or
+        mutated between the test and the node (the fact may be stale there). """
+    target = cfg.n(node)
+    facts: List[Tuple[ast.AST, bool]] = []
+    reachable = cfg.reach([cfg.entry])
+    if target not in reachable:
+        return facts
+    for cand in cfg.nodes:
+        if cand.kind != "test" or cand.ast is None or cand.id == target and not isinstance(cand.ast, ast.While):
+            continue
+        labels = {lab for _, lab in cfg.succ[cand.id]}
+        for label, polarity in (("T", True), ("F", False)):
+            if label not in labels:
+                continue
+            if target not in cfg.reach([cfg.entry], edges_excluded=[(cand.id, label)]):
+                test = cand.ast.test  # type: ignore[attr-defined]
+                if fresh_only and _stale(cfg, cand.id, label, target, test):
+                    continue
+                facts += literals(test, polarity)
+    # conditional expressions / boolean guards enclosing the node inside one statement
+    child = node
+    cur = getattr(node, "_parent", None)
+    while cur is not None and not isinstance(cur, ast.stmt):
+        if isinstance(cur, ast.IfExp):
+            if child is cur.body:
+                facts += literals(cur.test, True)
+            elif child is cur.orelse:
+                facts += literals(cur.test, False)
+        child = cur
+        cur = getattr(cur, "_parent", None)
+    return facts
+
+
+def _stale(cfg: CFG, test_id: int, label: str, target: int, test: ast.AST) -> bool:
+    names = {n.id for n in ast.walk(test) if isinstance(n, ast.Name)}
+    starts = [dst for dst, lab in cfg.succ[test_id] if lab == label]
+    after = cfg.reach(starts, include_start=True, avoid=[test_id])
+    for nid in after:
+        if nid == target or nid == test_id:
+            continue
+        node = cfg.nodes[nid]
+        defs = set(cfg.defs_at(nid))
+        if node.ast is not None and node.kind != "test":
+            defs |= mutated_names(node.ast)
+        if defs & names and target in cfg.reach([nid], avoid=[test_id]):
+            return True
+    return False
+
+
+def fact_texts(cfg: CFG, node: ast.AST) -> Set[str]:
+    """ path facts as normalised strings: 'X' for true literals, 'not X' for false ones """
+    out: Set[str] = set()
+    for expr, truth in path_facts(cfg, node):
+        out.add(txt(expr) if truth else f"not {txt(expr)}")
+    return out
+
+
+def inline_locals(func: ast.AST, expr: ast.AST, depth: int = 0, skip: Set[str] = frozenset()) -> ast.AST:
+    """ a copy of expr in which every local name bound exactly once in func (by a plain assignment of a
+        side-effect-free expression) is replaced by that expression - hoisted locals become transparent """
+    import copy
+
+    class Inliner(ast.NodeTransformer):
+        def visit_Name(self, node: ast.Name) -> ast.AST:
+            if not isinstance(node.ctx, ast.Load) or node.id in skip or depth > 3:
+                return node
+            values = bound_from(func, node.id)
+            stores = sum(1 for n in walk_local(func) if isinstance(n, ast.Name) and n.id == node.id
+                         and isinstance(n.ctx, (ast.Store, ast.Del)))
+            if len(values) == 1 and stores == 1 and not isinstance(values[0], (ast.ListComp, ast.DictComp, ast.SetComp,
+                                                                              ast.GeneratorExp, ast.Lambda)):
+                return inline_locals(func, values[0], depth + 1, skip | {node.id})
+            return node
+    return ast.fix_missing_locations(Inliner().visit(copy.deepcopy(expr)))
+
+
+def subscript_stores(func: ast.AST, scope: ast.AST) -> List[Tuple[ast.AST, ast.AST]]:
+    """ (site, subject) for every in-place store inside `scope` whose receiver is a subscripted container,
+        directly (`acc[k].add(x)`, `acc[a][b] = v`) or through a local alias (`slot = acc[k]; slot.add(x)`);
+        subject is the receiver with single-assignment locals inlined """
+    out: List[Tuple[ast.AST, ast.AST]] = []
+    for node in walk_local(scope):
+        if isinstance(node, ast.Call) and isinstance(node.func, ast.Attribute) \
+                and node.func.attr in ("add", "update", "append", "extend"):
+            subject = inline_locals(func, node.func.value)
+            if isinstance(subject, ast.Subscript):
+                out.append((node, subject))
+        elif isinstance(node, ast.Assign):
+            for target in node.targets:
+                if isinstance(target, ast.Subscript):
+                    subject = inline_locals(func, target)
+                    if isinstance(subject, ast.Subscript) and isinstance(subject.value, ast.Subscript):
+                        out.append((node, subject))
+    return out
+
+
+def nnf(expr: ast.AST, truth: bool = True):
+    """ negation normal form of a boolean expression as nested tuples:
+        ('and', frozenset), ('or', frozenset), ('lit', text, truth).  Negated comparisons are
+        folded into the literal (`a not in b` -> ('lit', 'a in b', False), `a != b` -> ('lit', 'a == b', False)). """
+    if isinstance(expr, ast.UnaryOp) and isinstance(expr.op, ast.Not):
+        return nnf(expr.operand, not truth)
+    if isinstance(expr, ast.BoolOp):
+        conj = isinstance(expr.op, ast.And) == truth
+        parts = set()
+        for value in expr.values:
+            sub = nnf(value, truth)
+            if sub[0] == ("and" if conj else "or"):
+                parts |= set(sub[1])
+            else:
+                parts.add(sub)
+        return ("and" if conj else "or", frozenset(parts))
+    if isinstance(expr, ast.Compare) and len(expr.ops) == 1:
+        flip = {ast.NotIn: ast.In, ast.IsNot: ast.Is, ast.NotEq: ast.Eq}
+        for neg, pos in flip.items():
+            if isinstance(expr.ops[0], neg):
+                twin = ast.Compare(left=expr.left, ops=[pos()], comparators=expr.comparators)
+                return ("lit", txt(twin), not truth)
+    if isinstance(expr, ast.Call) and isinstance(expr.func, ast.Name) and expr.func.id == "bool" and len(expr.args) == 1:
+        return nnf(expr.args[0], truth)
+    return ("lit", txt(expr), truth)
+
+
+def facts_nnf(facts: List[Tuple[ast.AST, bool]]):
+    """ conjunction of path facts in negation normal form """
+    parts = set()
+    for expr, truth in facts:
+        sub = nnf(expr, truth)
+        if sub[0] == "and":
+            parts |= set(sub[1])
+        else:
+            parts.add(sub)
+    return ("and", frozenset(parts))
+
+
+def inline_call(repo, rel: str, call: ast.AST) -> Optional[ast.AST]:
+    """ the returned expression of a one-statement module-level (or same-class, via self) helper with the
+        call's arguments substituted for its parameters; None when the callee is not such a helper """
+    import copy
+    if not isinstance(call, ast.Call):
+        return None
+    name = None
+    skip_self = False
+    if isinstance(call.func, ast.Name):
+        name = call.func.id
+    elif isinstance(call.func, ast.Attribute) and isinstance(call.func.value, ast.Name) and call.func.value.id in ("self", "cls"):
+        name = call.func.attr
+        skip_self = True
+    if name is None:
+        return None
+    target = None
+    for qual, func in repo.functions(rel):
+        if qual == name or (skip_self and qual.endswith("." + name) and qual.count(".") == 1):
+            target = func
+            break
+    if target is None:
+        return None
+    body = [st for st in target.body if not (isinstance(st, ast.Expr) and isinstance(st.value, ast.Constant))]
+    if len(body) != 1 or not isinstance(body[0], ast.Return) or body[0].value is None:
+        return None
+    params = [a.arg for a in target.args.args]
+    if skip_self and params:
+        params = params[1:]
+    if len(call.args) > len(params) or any(k.arg is None for k in call.keywords):
+        return None
+    mapping = dict(zip(params, call.args))
+    for kw in call.keywords:
+        mapping[kw.arg] = kw.value
+    if set(params) - set(mapping):
+        defaults = target.args.defaults
+        for param, default in zip(params[len(params) - len(defaults):], defaults):
+            mapping.setdefault(param, default)
+    if set(params) - set(mapping):
+        return None
+
+    class Sub(ast.NodeTransformer):
+        def visit_Name(self, node: ast.Name) -> ast.AST:
+            if node.id in mapping and isinstance(node.ctx, ast.Load):
+                return copy.deepcopy(mapping[node.id])
+            return node
+    return ast.fix_missing_locations(Sub().visit(copy.deepcopy(body[0].value)))
+
+
+def expand_helpers(repo, rel: str, expr: ast.AST, depth: int = 0) -> ast.AST:
+    """ expr with every call to a one-statement helper of the same module replaced by the helper's body """
+    import copy
+
+    class Expand(ast.NodeTransformer):
+        def visit_Call(self, node: ast.Call) -> ast.AST:
+            self.generic_visit(node)
+            if depth < 2:
+                inlined = inline_call(repo, rel, node)
+                if inlined is not None:
+                    return expand_helpers(repo, rel, inlined, depth + 1)
+            return node
+    return ast.fix_missing_locations(Expand().visit(copy.deepcopy(expr)))
+
+
+def inline_reaching(cfg: CFG, at: ast.AST, expr: ast.AST, depth: int = 0, comprehension_scope: Set[str] = frozenset(),
+                    keep: Set[str] = frozenset()) -> ast.AST:
+    """ a copy of `expr` (evaluated at statement `at`) in which a local name is replaced by the value of its
+        *unique reaching definition* when that is a plain `name = value` assignment, recursively resolved at the
+        defining statement.  Unlike inline_locals this follows names that are re-bound elsewhere in the function. """
+    import copy
+    try:
+        here = cfg.n(at)
+    except KeyError:
+        return copy.deepcopy(expr)
+
+    class Inliner(ast.NodeTransformer):
+        def __init__(self) -> None:
+            self.bound: Set[str] = set(comprehension_scope)
+
+        def _comp(self, node):  # names bound by a comprehension are not locals of the function
+            saved = set(self.bound)
+            for gen in node.generators:
+                self.bound |= {n.id for n in ast.walk(gen.target) if isinstance(n, ast.Name)}
+            self.generic_visit(node)
+            self.bound = saved
+            return node
+        visit_ListComp = visit_SetComp = visit_DictComp = visit_GeneratorExp = _comp
+
+        def visit_Lambda(self, node: ast.Lambda) -> ast.AST:
+            saved = set(self.bound)
+            self.bound |= {a.arg for a in node.args.args}
+            self.generic_visit(node)
+            self.bound = saved
+            return node
+
+        def visit_Name(self, node: ast.Name) -> ast.AST:
+            if not isinstance(node.ctx, ast.Load) or node.id in self.bound or node.id in keep or depth > 4:
+                return node
+            defs = cfg.reaching_defs(node.id, here)
+            if len(defs) != 1 or -1 in defs:
+                return node
+            stmt = cfg.nodes[next(iter(defs))].ast
+            value = None
+            if isinstance(stmt, ast.Assign) and len(stmt.targets) == 1 and isinstance(stmt.targets[0], ast.Name) \
+                    and stmt.targets[0].id == node.id:
+                value = stmt.value
+            elif isinstance(stmt, ast.AnnAssign) and isinstance(stmt.target, ast.Name) and stmt.target.id == node.id:
+                value = stmt.value
+            if value is None:
+                return node
+            return inline_reaching(cfg, stmt, value, depth + 1, frozenset(self.bound), keep)
+    return ast.fix_missing_locations(Inliner().visit(copy.deepcopy(expr)))
